@@ -108,12 +108,22 @@
   (m) the audit, row by row.  `AuditRun` packages what the walk through `auditResponse` starts from
       (`auditRun_exists`: every request whose scan reaches a TSIG record has one; `audit_eq_of_run`:
       its audit is `auditResponse` on the model's view).  `C10_audit_nofit`: row 4 (the reply TSIG does
-      not fit), whatever the outcome — the audit returns no tag.  `audit_rejected_core`: row 1 (rejected,
-      the reply fits) — every clause of the audit holds, the MAC of the signed BADTIME reply being a
-      hypothesis; `C10_audit_rejected_unsigned`: so the audit returns no tag for BADKEY / FORMERR /
-      BADSIG (`Proofs/AuditDecoded.decoded_nodata_tsig`: the no-data response with its TSIG record
-      decoded; `labelsOf_of_lower`: the decoded owner has the key name's labels up to case;
-      `stopReply_cases`: the reply mode per outcome).
+      not fit), whatever the outcome — the audit returns no tag.  `C10_audit_rejected`: row 1 (rejected, the reply
+      fits: BADKEY / FORMERR / BADSIG unsigned, BADTIME signed) — the audit returns no tag
+      (`Proofs/AuditDecoded.decoded_nodata_tsig`: the no-data response with its TSIG record decoded;
+      `labelsOf_of_lower`: the decoded owner has the key name's labels up to case; `stopReply_cases`: the
+      reply mode per outcome; `Proofs/FinishTsigPos.finish_tsig_pos` / `tsig_prefix_of_good`: the decoded
+      TSIG record starts exactly where the MAC input ends, for every valid writer — answers included;
+      `Proofs/AuditMac.response_mac_audit`: (1e), the MAC is the audit's `specMac`).
+      `C10_audit_authenticated_nodata`: row 2 (authenticated, no-data verdict) — every clause but
+      "answered normally" holds (`AuditWalk.auditResponse_authenticated`, `AnsweredNormally`), that
+      clause being a hypothesis; `C10_audit_row2`: and with `plain` the response to the stripped
+      request that clause holds too, so row 2 returns no tag — (1f) for the no-data verdicts
+      (`Proofs/AuditPlain`: `specScanWith_lookup_indep` — question, EDNS state, UDP limit do not depend
+      on the catalog, the verdict is a pre-table verdict or the table's at the same position;
+      `endVerdict_transfer` — the guard's verdict equation, stated for the audit's catalog, holds for
+      the server's; `plain_nodata_decoded` — the unsigned no-data response decoded: RCODE, AA, TC, no
+      answer / authority records; `plain_nodata_of_comparable`).
 
   Recorded correction of the *oracle* (`Spec.ServerTsig.audit`): the clause "answered normally"
   compares with the response to `stripTsigRr req`, which decrements ARCOUNT (octets 10–11).  The name
@@ -132,10 +142,31 @@
   RR (`postVerdict`); otherwise the clause is skipped, all others apply.  Both requests are in
   corpus/C10 (they pass; the implementation answers them as the model does).
 
-  Proved: (a)–(m).  Not proved, precisely:
-  (1) `C10_full` itself.  Of the audit, the clauses of `auditResponse` *after* the response is decoded
-      remain for the BADTIME reply of row 1 (its MAC, (1e)) and for rows 2–3 (row 4 is closed:
-      `C10_audit_nofit`; row 1 unsigned: `C10_audit_rejected_unsigned`), all of which need first
+  (n) the walk assembled: `C10_of_row3 : C10_row3 → C10_full` — requests that do not reach a TSIG
+      record (`C10_audit_pre_tsig`), rows 1, 2 and 4 (`C10_audit_rejected`, `C10_audit_row2`,
+      `C10_audit_nofit`) pass the audit and the rows are exhaustive (`C10_rows_exhaustive`), so
+      `C10_full` holds as soon as row 3 does.
+
+  Proved: (a)–(n).  Not proved, precisely:
+  (1) `C10_row3` — the one obligation `C10_full` is reduced to (`C10_of_row3`): an authenticated request
+      that a loaded zone *answers* passes the audit.  Everything that does not depend on the row is in
+      place and applies verbatim (`auditResponse_authenticated`; `response_mac_audit` and
+      `tsig_prefix_of_good` hold for every `Good` writer, answers included; `auditNeed_eq`,
+      `reserved_of_auth`, `C10_audit_fits` for "fits"; `C10_decoded_authenticated_answer` for "the TSIG
+      record is last").  What row 3 still needs:
+      (3a) from the answering writer, beyond what `signed_answer_final_of_run` exports: its header view
+           (the RCODE is `specResolve`'s, 0 or 3, never 9: `notauth-on-authenticated`), the extended-RCODE
+           octet 0 of its OPT (`F.edns` with `upper = 0`; only the payload is exported), and that the
+           reply TSIG fits (as in `C10_audit_authenticated_nodata`, from `tsigProcess_rows`);
+      (3b) `AnsweredNormally` for answers: under `plainComparable` the scan of the stripped request has
+           verdict `answer` with the same question, EDNS state and limit (`specScanWith_lookup_indep` +
+           `endVerdict_transfer`, exactly as in `plain_nodata_of_comparable`); then
+           `C05_end_to_end_signed` on the request and `C05_end_to_end` on the stripped request give the
+           same `specResolve` — RCODE, AA, answer and authority sections agree as multisets of `rrKey`
+           when neither response is truncated; `d.tc` (TC over UDP only, with no data: C04 T3 with the
+           TSIG reserved) and the additional section (`subMultiset`: less room with the TSIG reserved —
+           C04's limit monotonicity) are the parts C05 / C04 state only under `NoTruncation`.
+      History of the clauses (all closed except as said above):
       (1a) (closed: `C10_request_view`, (j)) the request-side link: `viewRequest` (the audit's own walk
            to the TSIG RR: `findTsig`, `specDecodeName`, `labelsOf`, `parseRdata`, the request prefix)
            yields the key name, RDATA fields and prefix of the model's `t` / `mw` of the same `TsigRun`;
@@ -151,16 +182,17 @@
            `modelOutcome_stopReply` / `modelOutcome_authenticated` relate it to `tsigStopReply` and to
            the authenticated rows) — gives `tsig-error-*`, `rcode-*`, `notauth-on-authenticated` once
            combined with the rows of (h);
-      (1d) `parseRdata (tsigRdata rr alg mac)` = the fields of `rr` (round trip) — gives `fudge`,
+      (1d) (closed for row 1: `C10_audit_rejected`) `parseRdata (tsigRdata rr alg mac)` = the fields of `rr` (round trip) — gives `fudge`,
            `original-id`, `time-signed`, `other-data`, `badtime-*`, `mac-length`, `mac-not-empty`,
            `alg-name`, `key-name`; `tsig-missing` / `two-tsig` / `tsig-not-last` / `tsig-class-ttl`
            follow from the rows of (h) once (1b) holds;
-      (1e) `response-mac`: `macFn` = HMAC of the RFC digest input (`C10_response_mac_eq_rfc`, (d)) — needs
-           the request's key name in lower case (the model's digest uses the name as sent);
-      (1f) `data-in-unauthenticated`, `tc-in-error`, `aa-in-error` (decoded facts in (g): an = ns = [];
-           TC / AA clear need the header view of `signed_error_final`'s writer) and "answered
-           normally": comparison with the response to the stripped request (`stripTsigRr`) — needs
-           the scan of the stripped request and `C05_end_to_end(_signed)` / C04's limit monotonicity;
+      (1e) (closed: `ServerContent.response_mac_audit`, for every writer with a pending `Response`-mode
+           TSIG — no hypothesis on the request's key name is needed, the model lower-cases it)
+           `response-mac`: `macFn` = HMAC of the RFC digest input (`C10_response_mac_eq_rfc`, (d)) over the
+           octets before the decoded record;
+      (1f) (closed for rows 1 and 2: `C10_audit_rejected`, `C10_audit_row2`; open for row 3, see (3b))
+           `data-in-unauthenticated`, `tc-in-error`, `aa-in-error` and "answered normally": comparison
+           with the response to the stripped request (`stripTsigRr`), under `plainComparable`;
   (2) (closed) for authenticated requests that a loaded zone *answers*:
       `C10_decoded_authenticated_answer` — in every decoding the TSIG record is the last element of
       the additional section, with the key name as owner (up to case), `tsigRdata` of the prepared RR
@@ -185,6 +217,8 @@ import QV.Proofs.RequestOutcome
 import QV.Proofs.RequestFits
 import QV.Proofs.AuditWalk
 import QV.Proofs.AuditDecoded
+import QV.Proofs.AuditMac
+import QV.Proofs.AuditPlain
 import QV.Proofs.ServerSignedTable
 
 namespace QV.C10
@@ -1245,6 +1279,8 @@ structure AuditRun (cfg : Cfg) (cat : List Spec.Server.ZoneCfg) (tr : Transport)
   hpos : 12 ≤ d.pos
   hdsz : d.pos ≤ req.size
   hmsg : MsgOk mw.toList
+  hnext : d.pos ≤ d.next
+  hnsz : d.next ≤ req.size
   hview : Spec.ServerTsig.viewRequest hmSpec (specKeys cfg.keys) req now =
     some ⟨kn.labels, fieldsOf alg.labels rest, mw.toList, modelOutcome cfg.keys nowT kn alg rest mw.toList,
       Spec.ServerTsig.findKey (specKeys cfg.keys) kn.labels⟩
@@ -1261,9 +1297,9 @@ theorem auditRun_exists (cfg : Cfg) (cat : List Spec.Server.ZoneCfg) (tr : Trans
   have hnT : ∃ nowT, TimeSigned.tryFromUnix now = some nowT := by
     unfold TimeSigned.tryFromUnix; rw [if_pos hnow]; exact ⟨_, rfl⟩
   obtain ⟨nowT, hnT⟩ := hnT
-  obtain ⟨t, mw, r', question, d, kn, alg, rest, h1, h2, h3, h4, h5, h6, h7, h8, h9, h10, h11, h12⟩ :=
+  obtain ⟨t, mw, r', question, d, kn, alg, rest, h1, h2, h3, h4, h5, h6, h7, h8, h9, h10, h11, h12, h13, h14⟩ :=
     request_outcome_ext cfg tr now 65535 req (minBuf_le tr _ hp16) hpay hreq (by rw [← a1]; exact hr) (a2.mp hv) hk nowT hnT
-  exact ⟨nowT, t, mw, r', question, d, kn, alg, rest, hr, hv, hnT, h1, h3, h4, h5, h2, h6, h7, h9, h10, h11, h12, h8⟩
+  exact ⟨nowT, t, mw, r', question, d, kn, alg, rest, hr, hv, hnT, h1, h3, h4, h5, h2, h6, h7, h9, h10, h11, h12, h13, h14, h8⟩
 
 open QV.ServerScan in
 /-- the audit of such a request is `auditResponse` on the view -/
@@ -1366,28 +1402,20 @@ theorem AuditRun.scanM {cfg : Cfg} {cat : List Spec.Server.ZoneCfg} {tr : Transp
   exact ⟨by rw [← a1]; exact h.respond, hind h.verdict⟩
 
 open QV.ServerScan in
-/-- **audit clauses of a rejected request whose reply fits** (row 1), the MAC of a BADTIME reply being
-    left as a hypothesis (`hsigned`, discharged by `C10_audit_response_mac`): `tsig-missing`,
-    `two-tsig`, `tsig-rdata`, `tsig-not-last`, `tsig-class-ttl`, `key-name`, `alg-name`, `fudge`,
-    `original-id`, `id`, `tsig-error-*`, `rcode-*`, `mac-not-empty`, `badtime-other`,
-    `badtime-time-signed`, `other-data`, `time-signed`, `data-in-unauthenticated`, `tc-in-error`,
-    `aa-in-error` never arise -/
-theorem audit_rejected_core (cfg : Cfg) (cat : List Spec.Server.ZoneCfg) (tr : Transport) (now : Nat) (req : Bytes)
-    (hpay : 512 ≤ cfg.payload) (hp16 : cfg.payload ≤ 65535)
+/-- **audit of a rejected request whose reply fits** (row 1: BADKEY, FORMERR, BADSIG unsigned; BADTIME
+    signed): the audit returns no tag — `tsig-missing`, `two-tsig`, `tsig-rdata`, `tsig-not-last`,
+    `tsig-class-ttl`, `key-name`, `alg-name`, `fudge`, `original-id`, `id`, `tsig-error-*`, `rcode-*`,
+    `mac-not-empty`, `mac-length`, `response-mac` (`ServerContent.response_mac_audit`: the MAC is the
+    HMAC, under the audit's own key, of the RFC 8945 §4.3 digest input over the octets before the
+    decoded TSIG record), `badtime-other`, `badtime-time-signed`, `other-data`, `time-signed`,
+    `data-in-unauthenticated`, `tc-in-error`, `aa-in-error` never arise -/
+theorem C10_audit_rejected (cfg : Cfg) (cat : List Spec.Server.ZoneCfg) (tr : Transport) (now : Nat) (req : Bytes)
+    (hpay : 512 ≤ cfg.payload) (hp16 : cfg.payload ≤ 65535) (hk : KeysOK cfg.keys)
     {nowT : TimeSigned} {t : ReadTsigRr} {mw : Bytes} {r' : Reader.Reader} {question : Option (WName × Nat × Nat)}
     {d : Spec.Server.Delim} {kn alg : WName} {rest : List UInt8}
     (h : AuditRun cfg cat tr now req nowT t mw r' question d kn alg rest)
     (hrow : ServerContent.RowRejected cfg tr now 65535 req t mw)
-    (b : Bytes) (hb : handleMessage cfg tr now 65535 req = .ok (some b)) (plain : Spec.ServerTsig.Resp)
-    (hsigned : modelOutcome cfg.keys nowT kn alg rest mw.toList = .badTime →
-      ∀ dm restR o rf rkn, Spec.specDecodeMsg b = some dm → dm.ar = restR ++ [o] →
-        Spec.Tsig.parseRdata o.rdata = some rf → Spec.Tsig.labelsOf o.owner = some rkn →
-        rf.mac.length = (Spec.Tsig.outputSizeOf alg.labels).getD 0 ∧
-        ∃ k, Spec.ServerTsig.findKey (specKeys cfg.keys) kn.labels = some k ∧
-          rf.mac = hmSpec k.sha256 k.secret
-            (Spec.Tsig.digestInput .response (b.extract 0 o.pos).toList rf.originalId
-              { keyName := rkn, algName := rf.algName, timeSigned := rf.timeSigned, fudge := rf.fudge,
-                error := rf.error, other := rf.other } (fieldsOf alg.labels rest).mac)) :
+    (b : Bytes) (hb : handleMessage cfg tr now 65535 req = .ok (some b)) (plain : Spec.ServerTsig.Resp) :
     (Spec.ServerTsig.audit hmSpec cat cfg.payload (specKeys cfg.keys) req now (tr = .udp)
       (toResp (handleMessage cfg tr now 65535 req)) plain).1 = [] := by
   obtain ⟨hrM, iq, ie, il⟩ := h.scanM
@@ -1467,27 +1495,247 @@ theorem audit_rejected_core (cfg : Cfg) (cat : List Spec.Server.ZoneCfg) (tr : T
       (fun _ => ⟨rfl, hnow'⟩) (fun hbt => by rw [ho] at hbt; cases hbt) hnd g3 g2
   · refine auditResponse_rejected hmSpec _ _ _ _ _ _ now _ _ _ b plain dm o _ rkn hdm hfit' (by rw [ho]; decide)
       htsF q7 hl1 hlastT q4 q5 hl3 (halgL _ (algName_wf _) (stop_algName alg a ha)) rfl hoidm hidd (by rw [ho]; rfl) g6
-      (by rw [g1, ho]; rfl) (fun hn => absurd ho hn) (fun _ => hsigned ho dm restR o _ rkn hdm q1 q7 hl1)
+      (by rw [g1, ho]; rfl) (fun hn => absurd ho hn) (fun _ => ?_)
       (fun hn => absurd ho hn) (fun _ => ⟨?_, ?_⟩) hnd g3 g2
+    · -- the MAC of the signed reply
+      have hlowk : Tsig.lowerName kn'.wire = kn'.wire := by rw [hkw, lowerName_idem]
+      have wf := prepOf_wf kn' (viewRr kn alg rest) nowT 18 (ServerContent.labels_lower_of_wire kn' hkwf hlowk) (by omega)
+      have hreq : (viewRr kn alg rest).mac.length ≤ 65535 := by
+        have hm' : (viewRr kn alg rest).mac = (fieldsOf alg.labels rest).mac := hfa.mac.symm
+        rw [hm']
+        show ((rest.drop 10).take (Spec.Tsig.field16 rest 8)).length ≤ 65535
+        rw [List.length_take]
+        have : Spec.Tsig.field16 rest 8 ≤ 65535 := by
+          unfold Spec.Tsig.field16
+          have := (rest.getD 8 0).toNat_lt; have := (rest.getD (8 + 1) 0).toNat_lt; omega
+        omega
+      obtain ⟨rest', o', hdar', hlen, k, hfk, hall⟩ := ServerContent.response_mac_audit cfg.keys hk kn h.hkn a key hkey
+        F _ hG _ wf _ hreq _ hts b mac hf dm hdm
+      rw [q1] at hdar'
+      obtain ⟨_, eo⟩ := List.append_inj' hdar' rfl
+      simp only [List.cons.injEq, and_true] at eo
+      subst eo
+      refine ⟨?_, k, hfk, ?_⟩
+      · show (mac.getD []).length = _
+        rw [hlen]
+        show _ = (Spec.Tsig.outputSizeOf alg.labels).getD 0
+        rw [outputSizeOf_view alg h.halg, ha]; rfl
+      · have := hall rkn hl2
+        have hm' : (fieldsOf alg.labels rest).mac = (viewRr kn alg rest).mac := hfa.mac
+        rw [hm']
+        exact this
     · show (if (18 : Nat) = XR_BADTIME then nowT.asSlice else []) = Spec.Tsig.u48 now
       rw [e18, if_pos rfl, Tsig.asSlice_eq_spec, toUnix_tryFromUnix now nowT h.hnow]
     · show Spec.Tsig.nat48 (ReadTsigRr.timeSigned (viewRr kn alg rest)).asSlice = _
       rw [hnat, hfa.time]; rfl
 
 open QV.ServerScan in
-/-- **audit of the unsigned rejections** (row 1 with outcome BADKEY, FORMERR or BADSIG): the audit
-    returns no tag -/
-theorem C10_audit_rejected_unsigned (cfg : Cfg) (cat : List Spec.Server.ZoneCfg) (tr : Transport) (now : Nat)
-    (req : Bytes) (hpay : 512 ≤ cfg.payload) (hp16 : cfg.payload ≤ 65535)
+open QV.ServerScan in
+/-- **audit of an authenticated request with a no-data verdict** (row 2: FORMERR after the TSIG record,
+    NOTIMP, REFUSED, SERVFAIL for a zone not loaded), the clause "answered normally" being the
+    hypothesis `hdata`: all the other clauses hold — `tsig-missing`, `two-tsig`, `tsig-rdata`,
+    `tsig-not-last`, `tsig-class-ttl`, `key-name`, `alg-name`, `fudge`, `original-id`, `id`,
+    `tsig-error-*`, `notauth-on-authenticated`, `mac-length`, `response-mac`, `other-data`,
+    `time-signed` never arise -/
+theorem C10_audit_authenticated_nodata (cfg : Cfg) (cat : List Spec.Server.ZoneCfg) (tr : Transport) (now : Nat)
+    (req : Bytes) (hpay : 512 ≤ cfg.payload) (hp16 : cfg.payload ≤ 65535) (hk : KeysOK cfg.keys)
     {nowT : TimeSigned} {t : ReadTsigRr} {mw : Bytes} {r' : Reader.Reader} {question : Option (WName × Nat × Nat)}
     {d : Spec.Server.Delim} {kn alg : WName} {rest : List UInt8}
     (h : AuditRun cfg cat tr now req nowT t mw r' question d kn alg rest)
-    (hrow : ServerContent.RowRejected cfg tr now 65535 req t mw)
-    (hu : modelOutcome cfg.keys nowT kn alg rest mw.toList ≠ .badTime)
-    (b : Bytes) (hb : handleMessage cfg tr now 65535 req = .ok (some b)) (plain : Spec.ServerTsig.Resp) :
+    (hrow : ServerContent.RowAuthNoData cfg tr now 65535 req t mw r')
+    (b : Bytes) (hb : handleMessage cfg tr now 65535 req = .ok (some b)) (plain : Spec.ServerTsig.Resp)
+    (hdata : ∀ dm v, Spec.specDecodeMsg b = some dm →
+      (v = Spec.Server.Verdict.formErr ∨ v = .notImp ∨ v = .refused ∨ v = .servFailZone) →
+      endVerdict (catKind cfg) req.size (Spec.Server.specScanWith (catKind cfg) cfg.payload req).question
+        r'.cursor ((req.getD 2 0).toNat / 8 % 16) = v →
+      dm.rcode = (Spec.Server.verdictRcode v).1 % 16 → dm.aa = false → dm.tc = false → dm.an = [] → dm.ns = [] →
+      (∀ x ∈ dm.ar, x.ty = 41 ∨ x.ty = 250) →
+      AnsweredNormally dm (decide (tr = .udp)) (Spec.ServerTsig.plainComparable cat cfg.payload req) plain) :
     (Spec.ServerTsig.audit hmSpec cat cfg.payload (specKeys cfg.keys) req now (tr = .udp)
-      (toResp (handleMessage cfg tr now 65535 req)) plain).1 = [] :=
-  audit_rejected_core cfg cat tr now req hpay hp16 h hrow b hb plain (fun hbt => absurd hbt hu)
+      (toResp (handleMessage cfg tr now 65535 req)) plain).1 = [] := by
+  obtain ⟨hrM, iq, ie, il⟩ := h.scanM
+  rw [audit_eq_of_run h, hb]
+  simp only [toResp]
+  obtain ⟨r'', S, v, hT, hvv, hev⟩ := hrow
+  obtain ⟨nowT', a, key, kn', F, mac, e1, e2, e3, e4, e5, hf, hG, hts, he, _, hh⟩ :=
+    ServerContent.signed_nodata_final_of_run cfg tr now 65535 req (minBuf_le tr _ hp16) hpay hp16 hrM t mw r' question
+      h.hrun r'' S hT v hvv hev b hb
+  rw [h.hnow] at e1; cases e1
+  have hkw : kn'.wire = Tsig.lowerName kn.wire := by rw [ServerAnswer.parse_wire _ _ e4, h.ht]; rfl
+  have hkwf := parse_wf e4
+  -- the reply fits
+  have h3 := ServerContent.preTsig_size3 cfg tr 65535 req (minBuf_le tr _ hp16) hpay hrM
+  have hfit : TsigFits (preTsigState cfg tr 65535 req) (.response (toWriterAlg a) t.mac key.secret)
+      (prepOf kn' t nowT 0) := by
+    unfold tsigAfter at hT
+    rw [h.hnow] at hT
+    obtain ⟨kn2, hk2, hc⟩ := ServerContent.tsigProcess_rows realHmac cfg.keys _ h3 t mw.toList nowT r' _ S hT
+    rw [e4] at hk2; cases hk2
+    rcases hc with ⟨_, _, _, _, _, _, hn⟩ | ⟨a2, key2, ha2, hk2, _, hc⟩
+    · cases hn
+    · rw [e2] at ha2; cases ha2
+      rw [e3] at hk2; cases hk2
+      rcases hc with ⟨hf', _⟩ | ⟨_, hn⟩
+      · exact hf'
+      · cases hn
+  rw [h.ht] at e2 e3 e5 hfit hts
+  have hmo := modelOutcome_authenticated cfg.keys nowT kn alg rest mw.toList a key e2 e3 e5
+  rw [hmo]
+  have hfa := fieldsAgree_of (Tsig.lowerName kn.wire) alg rest h.h10
+  have hfit' : auditNeed (Spec.Server.specScan cat cfg.payload req)
+      ⟨kn.labels, fieldsOf alg.labels rest, mw.toList, .authenticated,
+        Spec.ServerTsig.findKey (specKeys cfg.keys) kn.labels⟩ ≤
+      auditLimit (Spec.Server.specScan cat cfg.payload req) (decide (tr = .udp)) := by
+    rw [auditNeed_eq _ _ iq ie kn alg h.hkn h.halg, auditLimit_eq _ _ il tr]
+    have hkl : kn'.wire.length = kn.wire.length := by rw [hkw]; simp [Tsig.lowerName]
+    rw [← reserved_of_auth kn alg h.halg kn' hkl a e2 (viewRr kn alg rest).mac key.secret (viewRr kn alg rest) nowT]
+    have := (C10_audit_fits cfg tr 65535 req (minBuf_le tr _ hp16) hpay hrM _ _).mp hfit
+    cases tr <;> exact this
+  obtain ⟨l1, l2⟩ := prepOf_lengths kn' (viewRr kn alg rest) nowT 0
+  obtain ⟨dm, hdm⟩ := ServerContent.decodes_of_good F _ hG b mac hf
+  obtain ⟨g1, g2, g3, g4, g5, g6, restR, o, q1, q2, q3, q4, q5, q6, q7⟩ :=
+    ServerContent.decoded_nodata_tsig F _ hG _ hts (algName_wf _) l1 l2 _ cfg.payload he _ hh b mac hf dm hdm
+  simp only [respTsig] at q6 q7
+  simp only at g1 g2 g3
+  obtain ⟨rkn, hl1, hl2⟩ := labelsOf_of_lower o.owner kn' hkwf q6
+  have hl3 : rkn.map (·.map Spec.Tsig.lower) = kn.labels.map (·.map Spec.Tsig.lower) := by
+    rw [hl2]
+    exact (labels_lower_iff kn' kn hkwf h.hkn).mpr (by rw [hkw, lowerName_idem])
+  have hlastT : dm.ar.getLast?.map (·.ty) = some 250 := by rw [q1]; simp [q3]
+  have htsF : dm.ar.filter (fun r => r.ty = 250) = [o] := by
+    rw [q1]
+    exact filter_snoc_unique (fun r : Spec.DRr => decide (r.ty = 250)) (fun r => decide (r.ty = 41)) restR o
+      (fun x hx => decide_eq_true (q2 x hx)) (fun x hx => by
+        have := of_decide_eq_true hx; simp [this]) (decide_eq_true q3)
+  have hidd : dm.id = Spec.Server.hdr req 0 := by
+    rw [decode_id b dm hdm]
+    exact (ServerScan.response_echo cfg tr now 65535 req (minBuf_le tr _ hp16) hpay b hb).1
+  have hnat : ∀ x : TimeSigned, Spec.Tsig.nat48 x.asSlice = x.toUnix := fun x => by
+    simp [Spec.Tsig.nat48, TimeSigned.asSlice, TimeSigned.toUnix]; omega
+  have hnow' : Spec.Tsig.nat48 nowT.asSlice = now := by rw [hnat, toUnix_tryFromUnix now nowT h.hnow]
+  have hoidm : (ReadTsigRr.originalId (viewRr kn alg rest)).toNat % 65536 = (fieldsOf alg.labels rest).originalId := by
+    rw [hfa.origId]; exact Nat.mod_eq_of_lt (UInt16.toNat_lt _)
+  have halgL : (algName (toWriterAlg a)).labels.map (·.map Spec.Tsig.lower) =
+      alg.labels.map (·.map Spec.Tsig.lower) :=
+    (labels_lower_iff _ alg (algName_wf _) h.halg).mpr (by rw [stop_algName alg a e2, lowerName_idem])
+  -- the MAC
+  have hlowk : Tsig.lowerName kn'.wire = kn'.wire := by rw [hkw, lowerName_idem]
+  have wf := prepOf_wf kn' (viewRr kn alg rest) nowT 0 (ServerContent.labels_lower_of_wire kn' hkwf hlowk) (by omega)
+  have hreq : (viewRr kn alg rest).mac.length ≤ 65535 := by
+    have hm' : (viewRr kn alg rest).mac = (fieldsOf alg.labels rest).mac := hfa.mac.symm
+    rw [hm']
+    show ((rest.drop 10).take (Spec.Tsig.field16 rest 8)).length ≤ 65535
+    rw [List.length_take]
+    have : Spec.Tsig.field16 rest 8 ≤ 65535 := by
+      unfold Spec.Tsig.field16
+      have := (rest.getD 8 0).toNat_lt; have := (rest.getD (8 + 1) 0).toNat_lt; omega
+    omega
+  obtain ⟨rest', o', hdar', hlen, k, hfk, hall⟩ := ServerContent.response_mac_audit cfg.keys hk kn h.hkn a key e3
+    F _ hG _ wf _ hreq _ hts b mac hf dm hdm
+  rw [q1] at hdar'
+  obtain ⟨_, eo⟩ := List.append_inj' hdar' rfl
+  simp only [List.cons.injEq, and_true] at eo
+  subst eo
+  have e18 : Writer.XR_BADTIME = 18 := by decide
+  refine auditResponse_authenticated hmSpec _ _ _ _ _ now _ _ _ b plain dm o _ rkn hdm hfit' htsF q7 hl1 hlastT q4 q5
+    hl3 halgL rfl hoidm hidd rfl g6 ?_ ?_ ⟨k, hfk, ?_⟩ rfl hnow'
+    (hdata dm v hdm hvv hev g1 g2 g3 g4 g5 (fun x hx => by
+      rw [q1] at hx
+      rcases List.mem_append.mp hx with hx | hx
+      · exact Or.inl (q2 x hx)
+      · simp only [List.mem_singleton] at hx; subst hx; exact Or.inr q3))
+  · rw [g1]; rcases hvv with rfl | rfl | rfl | rfl <;> decide
+  · show (mac.getD []).length = (Spec.Tsig.outputSizeOf alg.labels).getD 0
+    have e2' : Algorithm.fromName (Tsig.lowerName alg.wire) = some a := e2
+    rw [hlen, outputSizeOf_view alg h.halg, e2']; rfl
+  · have := hall rkn hl2
+    have hm' : (fieldsOf alg.labels rest).mac = (viewRr kn alg rest).mac := hfa.mac
+    rw [hm']
+    exact this
+
+open QV.ServerScan in
+/-- **row 2 passes the audit**: an authenticated request with a no-data verdict, `plain` being the
+    response to the request without its TSIG record — "answered normally" included
+    (`plain_nodata_of_comparable`: under the audit's guard the stripped request gets the unsigned
+    no-data response of the same verdict) -/
+theorem C10_audit_row2 (cfg : Cfg) (cat : List Spec.Server.ZoneCfg) (tr : Transport) (now : Nat)
+    (req : Bytes) (hpay : 512 ≤ cfg.payload) (hp16 : cfg.payload ≤ 65535) (hreq : req.size ≤ Rdata.USIZE_MAX)
+    (hk : KeysOK cfg.keys)
+    {nowT : TimeSigned} {t : ReadTsigRr} {mw : Bytes} {r' : Reader.Reader} {question : Option (WName × Nat × Nat)}
+    {d : Spec.Server.Delim} {kn alg : WName} {rest : List UInt8}
+    (h : AuditRun cfg cat tr now req nowT t mw r' question d kn alg rest)
+    (hrow : ServerContent.RowAuthNoData cfg tr now 65535 req t mw r')
+    (b : Bytes) (hb : handleMessage cfg tr now 65535 req = .ok (some b)) :
+    (Spec.ServerTsig.audit hmSpec cat cfg.payload (specKeys cfg.keys) req now (tr = .udp)
+      (toResp (handleMessage cfg tr now 65535 req))
+      (match Spec.ServerTsig.stripTsigRr req with
+        | some p => toResp (handleMessage cfg tr now 65535 p)
+        | none => .none)).1 = [] := by
+  refine C10_audit_authenticated_nodata cfg cat tr now req hpay hp16 hk h hrow b hb _ ?_
+  intro dm v hdm hvv hev hrc haa htc han hns har pb pd hplain hpd
+  refine ⟨fun hc => (by rw [htc] at hc; cases hc), fun _ hptc hcmp => ?_⟩
+  obtain ⟨_, iq, _, _⟩ := h.scanM
+  rw [h.hcur] at hev
+  obtain ⟨p, hstrip, pb', hpb', hall⟩ := plain_nodata_of_comparable cfg cat tr now req hpay hp16 hreq d h.hfind h.hpos
+    h.hdsz h.hnext h.hnsz iq v hvv hev hcmp
+  rw [hstrip] at hplain
+  simp only [hpb', toResp, Spec.ServerTsig.Resp.bytes.injEq] at hplain
+  subst hplain
+  obtain ⟨p1, p2, p3, p4, _⟩ := hall pd hpd
+  refine ⟨by rw [hrc, p3], by rw [haa, p4], by rw [han, p1]; rfl, by rw [hns, p2]; rfl, ?_⟩
+  have : Spec.ServerTsig.plainRrs dm.ar = [] := by
+    unfold Spec.ServerTsig.plainRrs
+    rw [List.map_eq_nil_iff, List.filter_eq_nil_iff]
+    intro x hx
+    rcases har x hx with h1 | h1 <;> simp [h1]
+  rw [this]; rfl
+
+/-! ## (n) the walk assembled -/
+
+open QV.ServerScan in
+/-- what remains of `C10_full`: **row 3** — an authenticated request that a loaded zone answers passes
+    the audit (`plain` being the response to the request without its TSIG record) -/
+def C10_row3 : Prop :=
+  ∀ (cfg : Cfg) (cat : List Spec.Server.ZoneCfg) (tr : Transport) (now : Nat) (req : Bytes),
+    now < 2 ^ 48 → ServerSafety.CfgWF cfg → 512 ≤ cfg.payload → cfg.payload ≤ 65535 → req.size ≤ Rdata.USIZE_MAX →
+    KeysOK cfg.keys →
+    ∀ (nowT : TimeSigned) (t : ReadTsigRr) (mw : Bytes) (r' : Reader.Reader) (question : Option (WName × Nat × Nat))
+      (d : Spec.Server.Delim) (kn alg : WName) (rest : List UInt8),
+      AuditRun cfg cat tr now req nowT t mw r' question d kn alg rest →
+      ServerContent.RowAuthAnswer cfg tr now 65535 req t mw r' →
+      ∀ b, handleMessage cfg tr now 65535 req = .ok (some b) →
+        (Spec.ServerTsig.audit hmSpec cat cfg.payload (specKeys cfg.keys) req now (tr = .udp)
+          (toResp (handleMessage cfg tr now 65535 req))
+          (match Spec.ServerTsig.stripTsigRr req with
+            | some p => toResp (handleMessage cfg tr now 65535 p)
+            | none => .none)).1 = []
+
+open QV.ServerScan in
+/-- **`C10_full` from row 3**: requests that do not reach a TSIG record (`C10_audit_pre_tsig`), rejected
+    requests (`C10_audit_rejected`), authenticated requests with a no-data verdict (`C10_audit_row2`)
+    and replies whose TSIG does not fit (`C10_audit_nofit`) pass the audit; the rows are exhaustive
+    (`C10_rows_exhaustive`) — so `C10_full` holds as soon as row 3 does -/
+theorem C10_of_row3 (h3 : C10_row3) : C10_full := by
+  intro cfg cat tr now req hnow hcfg hpay hp16 hreq hk
+  simp only
+  by_cases hr : (Spec.Server.specScan cat cfg.payload req).respond = true
+  · by_cases hv : (Spec.Server.specScan cat cfg.payload req).verdict = .tsigReached
+    · obtain ⟨nowT, t, mw, r', question, d, kn, alg, rest, h⟩ :=
+        auditRun_exists cfg cat tr now req hnow hpay hp16 hreq hk hr hv
+      obtain ⟨hrM, _, _, _⟩ := h.scanM
+      obtain ⟨a1, a2⟩ := C10_audit_scan_agrees cfg cat req
+      obtain ⟨b, hb⟩ := ServerScan.signed_response_exists cfg hcfg tr now 65535 req (minBuf_le tr _ hp16) hpay hreq
+        hnow hrM (a2.mp hv)
+      obtain ⟨hrows, _⟩ := C10_rows_exhaustive cfg tr now 65535 req (minBuf_le tr _ hp16) hpay hrM t mw r' question
+        h.hrun b hb
+      rcases hrows with h1 | h2 | h3' | h4
+      · exact C10_audit_rejected cfg cat tr now req hpay hp16 hk h h1 b hb _
+      · exact C10_audit_row2 cfg cat tr now req hpay hp16 hreq hk h h2 b hb
+      · exact h3 cfg cat tr now req hnow hcfg hpay hp16 hreq hk nowT t mw r' question d kn alg rest h h3' b hb
+      · exact C10_audit_nofit cfg cat tr now req hpay hp16 h h4 b hb _
+    · exact C10_audit_pre_tsig cfg hcfg cat tr now req hpay hp16 hreq _ (Or.inr hv)
+  · exact C10_audit_pre_tsig cfg hcfg cat tr now req hpay hp16 hreq _
+      (Or.inl (by cases hh : (Spec.Server.specScan cat cfg.payload req).respond <;> simp_all))
 
 /-! ## non-vacuity: concrete instances of the hypotheses used above -/
 
